@@ -228,6 +228,7 @@ private:
                          std::uint8_t message_version);
     std::optional<std::array<std::uint8_t, 32>> session_shared_key(const PeerId& peer_id) const;
     std::optional<protocol::Manifest> manifest_for_chunk(const ChunkId& chunk_id) const;
+    bool manifest_keeps_held_chunk_readable(const protocol::Manifest& manifest);
     void seed_bootstrap_contacts();
     void attempt_bootstrap_handshakes();
     void ensure_bootstrap_handshake(const PeerId& peer_id);
